@@ -534,6 +534,16 @@ func TestReplay(t *testing.T) {
 	if !ok {
 		t.Skip("no replay file")
 	}
+	if name, _, _ := stats.Replaying(); name == "TestEnumLarge" {
+		var lc LargeCase
+		if err := json.Unmarshal(raw, &lc); err != nil {
+			t.Fatal(err)
+		}
+		if err := stats.Guard(func() error { return checkLarge(lc) }); err != nil {
+			t.Fatalf("replayed case still fails: %v", err)
+		}
+		return
+	}
 	if name, _, _ := stats.Replaying(); name == "TestPropConcurrent" {
 		var cs []Case
 		if err := json.Unmarshal(raw, &cs); err != nil {
